@@ -402,28 +402,42 @@ impl<
                 return (entry, staging_snapshot, spilled);
             }
 
-            let entry = self
+            let loaded = self
                 .repr
                 .single_flight
-                .wait_or_work(key, || {
+                .wait_or_work(key, |flight| {
+                    // Sample the staging log only now that the flight is
+                    // registered: an operation that is not in this snapshot
+                    // was appended after the registration, so its writer
+                    // (`apply_op`) finds the flight and invalidates it.
+                    let staging_snapshot = self.get_staging_snapshot(key);
+
                     let entry =
                         self.fetch_entry(key, &staging_snapshot, &mut spilled);
 
-                    self.repr.cache.entry(key.clone(), |e| match e {
-                        tiny_lfu::Entry::Vacant(vaccant_entry) => {
-                            vaccant_entry.insert(entry.clone());
-                        }
-                        tiny_lfu::Entry::Occupied(_) => {
-                            // Do nothing as another thread inserted an explicit
-                            // value
-                        }
+                    // The entry may only be shared if it has not missed an
+                    // operation. A writer that invalidates the flight too late
+                    // to stop the publication finds the published entry and
+                    // patches it; see `apply_op`. An entry that was not
+                    // published still serves this read, which overlaps the
+                    // write.
+                    flight.publish(|| {
+                        self.repr.cache.entry(key.clone(), |e| match e {
+                            tiny_lfu::Entry::Vacant(vaccant_entry) => {
+                                vaccant_entry.insert(entry.clone());
+                            }
+                            tiny_lfu::Entry::Occupied(_) => {
+                                // Do nothing as another thread inserted an
+                                // explicit value
+                            }
+                        });
                     });
 
-                    entry
+                    (entry, staging_snapshot)
                 })
                 .await;
 
-            if let Some(entry) = entry {
+            if let Some((entry, staging_snapshot)) = loaded {
                 return (entry, staging_snapshot, spilled);
             }
         }
@@ -571,7 +585,16 @@ impl<
             ));
         }
 
-        // Step 2: Update Cache (Optimization)
+        // Step 2: Stop a load that may have missed the operation
+        // A load of this key that sampled the staging log before the append
+        // above must not publish what it has built: it lacks the operation,
+        // and we cannot patch an entry that is not in the cache yet. This
+        // has to come after the append (a load that starts later sees the
+        // operation in the log) and before the lookup below (a load that
+        // published before it saw the mark is found there).
+        self.repr.single_flight.invalidate(key);
+
+        // Step 3: Update Cache (Optimization)
         // We DO NOT load from DB if missing. We only update if present.
         let Some(entry) = self.repr.cache.get(key) else {
             return;
@@ -591,7 +614,7 @@ impl<
                     }
                 }
 
-                // Step 3: Threshold Check
+                // Step 4: Threshold Check
                 // If it grew too big, downgrade to TooLarge
                 if new_set.len() > 1024 {
                     drop(read_entry);
